@@ -25,7 +25,7 @@ type In struct {
 //	T  N       let N virtual nanoseconds pass
 //	A  P N M   v1: AddInput(new channel of capacity N, P), producer gets M items
 //	X  P       v1: RemoveInput(P)
-//	G          v1: GracefulStop()
+//	G  [N]     v1: GracefulStop(); N=2: a second call while the first one is pending
 //	S  N       v1: Stop(); N=2: two overlapping Stop() calls from two goroutines
 //	K          v1: cancel the context
 type Op struct {
@@ -44,6 +44,9 @@ type Fault struct {
 	// Outside: the surplus lands on a configured priority that is NOT in the list the divider
 	// was called with (falls back to the first listed priority when every priority is listed)
 	Outside bool `json:"outside_the_list"`
+	// AfterGStop (v1): instead of counting calls, the fault hits the first eligible call that is
+	// made after GracefulStop() has been requested
+	AfterGStop bool `json:"at_first_call_after_graceful_stop,omitempty"`
 }
 
 // Script is one run of the priority lab (also the replay file format).
